@@ -977,7 +977,13 @@ def instances(tier: str) -> List[Tuple[str, tuple, dict, Callable[..., Callable[
           ("heyawake", (2, 3, _cols(2, 3), [-1, -1, -1]), {}, rule_heyawake),
           ("heyawake", (3, 3, [[(0, 0), (0, 1), (0, 2)], [(1, 0), (1, 1), (1, 2)], [(2, 0), (2, 1), (2, 2)]], [1, -1, 1]), {}, rule_heyawake),
           ("heyawake", (3, 3, [[(0, 0), (1, 0), (2, 0), (2, 1), (2, 2)], [(0, 1), (0, 2)], [(1, 1), (1, 2)]], [2, 0, -1]), {}, rule_heyawake),
-          ("heyawake", (1, 4, [[(0, 0)], [(0, 1), (0, 2)], [(0, 3)]], [-1, -1, -1]), {}, rule_heyawake)]
+          ("heyawake", (1, 4, [[(0, 0)], [(0, 1), (0, 2)], [(0, 3)]], [-1, -1, -1]), {}, rule_heyawake),
+          # one border only (no run rule applies), a cell beyond the second border, a two-cell room between the borders
+          ("heyawake", (3, 2, [[(0, 0), (0, 1)], [(1, 0), (1, 1), (2, 0), (2, 1)]], [-1, -1]), {}, rule_heyawake),
+          ("heyawake", (4, 1, [[(0, 0)], [(1, 0)], [(2, 0), (3, 0)]], [-1, -1, -1]), {}, rule_heyawake),
+          ("heyawake", (4, 1, [[(0, 0)], [(1, 0), (2, 0)], [(3, 0)]], [-1, -1, -1]), {}, rule_heyawake),
+          ("heyawake", (1, 4, [[(0, 0)], [(0, 1)], [(0, 2), (0, 3)]], [-1, -1, -1]), {}, rule_heyawake),
+          ("heyawake", (1, 5, [[(0, 0), (0, 1)], [(0, 2)], [(0, 3)], [(0, 4)]], [-1, -1, -1, -1]), {}, rule_heyawake)]
     if deep:
         I += [("heyawake", (4, 2, [[(0, 0), (0, 1)], [(1, 0), (1, 1), (2, 0), (2, 1)], [(3, 0), (3, 1)]], [-1, -1, -1]), {}, rule_heyawake),
               ("heyawake", (2, 4, [[(0, 0), (1, 0)], [(0, 1), (1, 1), (0, 2), (1, 2)], [(0, 3), (1, 3)]], [-1, -1, -1]), {}, rule_heyawake),
